@@ -244,8 +244,43 @@ func (i *interpreter) joinAll() {
 		if !pending {
 			return
 		}
+		before := i.progress
 		if !i.yield() {
-			panic(blockEvent{"deadlock: goroutines that cannot finish", nil})
+			// nobody is runnable by the usual rule; a goroutine waiting in a select
+			// with a timer case can still go on (its timer fires when it finds that
+			// nobody else can run): hand it the baton explicitly
+			if !i.yieldForce() || i.progress == before {
+				panic(blockEvent{"deadlock: goroutines that cannot finish", nil})
+			}
 		}
 	}
+}
+
+// yieldForce hands the baton to the next goroutine that is not done, even one
+// that found itself blocked at the current progress count.
+func (i *interpreter) yieldForce() bool {
+	me := i.curG
+	me.blockedAt = i.progress
+	n := len(i.gors)
+	var next *gor
+	for k := 1; k < n; k++ {
+		g := i.gors[(me.id+k)%n]
+		if !g.done {
+			next = g
+			break
+		}
+	}
+	if next == nil {
+		return false
+	}
+	i.saveCtx(me)
+	i.switchTo(next)
+	<-me.resume
+	if i.abortAll {
+		panic(goroutineAbort{})
+	}
+	i.curG = me
+	i.restoreCtx(me)
+	i.raiseGoroutinePanics()
+	return true
 }
